@@ -437,6 +437,22 @@ def run_scenario(sc, observe="all"):
                         raise ValueError("injected in middleware")
         rmw = RaisingMiddleware()
         fw.add_market_middleware(rmw)
+        if cfg.get("race_data"):
+            # historic sports data replayed alongside the market data (SimulatedSportsDataMiddleware): one race update a few ms BEFORE every market
+            # update after the first (they are handed to the strategies while that market update is processed)
+            from flumine.markets.middleware import SimulatedSportsDataMiddleware
+            race_dir = os.path.join(tmp, "race"); os.makedirs(race_dir, exist_ok=True)
+            for m_ in sc["markets"]:
+                lines_ = []
+                for k_, u_ in enumerate(m_["updates"][1:]):
+                    pt_ = u_["pt"] - cfg["race_data"]
+                    if pt_ <= m_["updates"][k_]["pt"]:
+                        continue
+                    lines_.append(json.dumps({"op": "rcm", "clk": str(pt_), "pt": pt_, "rc": [{"mid": m_["id"], "id": "%s.2300" % m_["event"],
+                                              "rpc": {"ft": pt_, "g": "", "st": 0, "rt": 1.0, "spd": 17.0, "prg": 1000 - k_, "ord": [1, 2]}}]}))
+                with open(os.path.join(race_dir, m_["id"]), "w") as f_:
+                    f_.write("\n".join(lines_) + "\n")
+            fw.add_market_middleware(SimulatedSportsDataMiddleware("raceSubscription", race_dir))
 
         class Cap(LoggingControl):
             NAME = "CAP"
